@@ -10,13 +10,14 @@ from .C03 import sle_rules
 MANIFEST = {
     'technique': 'contradiction rule on tolerance comparisons (a difference compared with a tolerance must be two-sided), typestate rule "the remembered LLE solution is '
             'one unit", simultaneous-swap rule for the top-chemical relabelling, paired-write and clamp rules for SLE; dead-store rule in the iteration kernels; '
-            'guarded-read rule for state carried from call to call',
+            'guarded-read rule for state carried from call to call; per-call-state rule for SLE._setup; exact clamp bound',
     'text': 'Decides for every input: every comparison of a difference with a cache tolerance in the reuse decision of LLE is two-sided (abs or both signs); on '
             'every path that stores partition coefficients the phase fraction, chemicals, composition and temperature they belong to are stored with them (or the '
             'coefficients are reset); the top-chemical relabelling swaps both liquids simultaneously; SLE writes only the solute at paired indices summing to the '
             'solute total, clamps the solubility into [0, x_max] and sends a pure solute entirely to one phase by comparing T with Tm; LLE.__call__ reads a field '
-            'it also writes only inside a validity test, under a branch guarded by one, or after writing it in the same call. Equal activities, scaling and '
-            'numerical agreement of cached and uncached results are not decided.',
+            'it also writes only inside a validity test, under a branch guarded by one, or after writing it in the same call. Every field SLE._setup computes from '
+            "this call's solute or flows is stored on every normal path; the SLE clamp bound is exactly N/(A+N). Equal activities, scaling and numerical agreement "
+            'of cached and uncached results are not decided.',
 }
 
 LLEF = 'thermosteam/equilibrium/lle.py'
